@@ -156,6 +156,11 @@ def rule_U1(ctx, include_panic=False, rule="U1"):
             t = body.term(bb)
             live = at_term.get(bb, (set(), set()))[1]
             site = "%s-edge:%s" % (k, _edge_name(body, bb))
+            if live and k == "panic":
+                from implied import infeasible
+                if infeasible(body, bb):
+                    ctx.ob(rule, path, site, True, how="assertion implied by the facts that dominate it: no failing edge", line=t.get("line", 0))
+                    continue
             if live:
                 names = ", ".join("%s (_%d: %s)" % (body.local_name(l) or "tmp", l, body.local_ty(l)) for l in sorted(live))
                 ctx.ob(rule, path, site, False, line=t.get("line", 0),
@@ -243,3 +248,97 @@ def rule_drop_releases(ctx, rule="DROP"):
 
 def _reaches_without(body, bb, rel):
     return True
+
+
+# ----------------------------------------------------------------------------- stale views
+_VIEW_TYS = ("&str", "&mut str", "&[u8]", "&mut [u8]", "*const u8", "*mut u8", "*const str", "*mut str", "*const [u8]", "*mut [u8]",
+             "core::ptr::NonNull<u8>", "core::ptr::non_null::NonNull<u8>")
+
+
+def _expr_calls(e, out=None, depth=0):
+    out = set() if out is None else out
+    if depth > 40 or not isinstance(e, tuple):
+        return out
+    if e and e[0] == "call" and len(e) >= 2 and isinstance(e[1], int):
+        out.add(e[1])
+        return out
+    for x in e:
+        if isinstance(x, tuple):
+            _expr_calls(x, out, depth + 1)
+    return out
+
+
+def rule_stale_views(ctx, rule="R1-stale"):
+    """a pointer / reference into the text, taken from the handle before a call that may free, move or
+    replace the handle's buffer, is not used after that call. The borrow checker enforces this for
+    references; raw pointers and references rebuilt from them (`&*(s as *const str)`) escape it."""
+    import re
+    from guards import describe
+    F, cg = ctx.F, ctx.cg
+    frees = {}
+
+    def may_release(k):
+        if k not in frees:
+            seen, leaves, users, parent = cg.reach([k])
+            frees[k] = any(e.name in ("alloc::alloc::dealloc", "alloc::alloc::realloc") for e in leaves) or any(x.endswith("HeapBuffer::dealloc") or x.endswith("HeapBuffer::realloc") for x in seen)
+        return frees[k]
+    n = 0
+    for path, b in F.bodies.items():
+        if b.arg_count < 1 or b.j["kind"] == "closure":
+            continue
+        t1 = b.local_ty(1) or ""
+        if not (t1.startswith("&mut ") and t1[5:] in ("repr::Repr", "LeanString", "repr::heap_buffer::HeapBuffer")):
+            continue
+        # invalidating calls on the receiver
+        inv = []
+        for bb, t in b.calls():
+            k = t.get("local_key")
+            if not k or not t["args"] or not (t["arg_tys"][0] or "").startswith("&mut "):
+                continue
+            if not re.search(r"\bp1\b", describe(b, b.origin_operand(t["args"][0]))):
+                continue
+            if may_release(k):
+                inv.append(bb)
+        if not inv:
+            continue
+        # views of the receiver's text
+        views = {}
+        for bb, t in b.calls():
+            d = t.get("dest")
+            if not d or d.get("p") or not t["args"]:
+                continue
+            if (b.local_ty(d["l"]) or "") in _VIEW_TYS and re.search(r"\bp1\b", describe(b, b.origin_operand(t["args"][0]))):
+                views[bb] = callee_name(t)
+        if not views:
+            continue
+        n += 1
+        for ib in inv:
+            before = [vb for vb in views if vb != ib and ib in b.reachable(vb, unwind=False)]
+            if not before:
+                continue
+            for vb in before:
+                after = b.reachable(b.term(ib)["target"], unwind=False, stop=(lambda q, _vb=vb: q == _vb)) if b.term(ib).get("target") is not None else set()
+                hit = None
+                for x in sorted(after):
+                    ops = []
+                    for st in b.blocks[x]["stmts"]:
+                        if st["k"] == "assign":
+                            try:
+                                ops.append((st.get("line"), b.origin_rvalue(st["rv"])))
+                            except Exception:
+                                pass
+                    tx = b.term(x)
+                    if tx["k"] == "call":
+                        for a in tx["args"]:
+                            ops.append((tx.get("line"), b.origin_operand(a)))
+                    for ln, e in ops:
+                        if vb in _expr_calls(e):
+                            hit = (x, ln)
+                            break
+                    if hit:
+                        break
+                ctx.ob(rule, path, "view-not-used-after:%s" % callee_name(b.term(ib)).rsplit("::", 1)[-1], hit is None, line=(hit[1] if hit else b.term(ib).get("line")),
+                       how="no view of the text taken before %s is used after it" % callee_name(b.term(ib)).rsplit("::", 1)[-1],
+                       detail="the text view returned by %s (line %s) is still used at line %s, after %s (line %s) may have released or moved the buffer it points into: the last other owner can free it meanwhile" % (
+                           views[vb], b.term(vb).get("line"), hit[1] if hit else "-", callee_name(b.term(ib)), b.term(ib).get("line")))
+    ctx.need(rule, "crate", "functions-with-views-and-invalidators", n >= 3, "only %d functions take a text view and call a buffer-replacing operation" % n, how="%d functions examined" % n)
